@@ -29,16 +29,21 @@ if TYPE_CHECKING:
 
 
 def _as_float_value(value: float | int | ArrayLike) -> float | NDArray[np.floating]:
-    """Parameter values are real numbers: Python numbers become float, everything
-    else a float64 array. Without this, NumPy integers / booleans (the elements a
-    VectorParameter gets from [2, 4] or [True, False]) kept their dtype, so the same
-    number behaved differently depending on how it had been written (2 ** -1 raises
-    for an integer, True + True is True, 4_000_000_000 ** 2 wraps around)."""
+    """Parameter values are real numbers: a scalar becomes a Python float, an array
+    a float64 array. Without this, NumPy integers / booleans / narrow floats (the
+    elements a VectorParameter gets from [2, 4], [True, False] or a float32 array)
+    kept their dtype, so the same number behaved differently depending on how it
+    had been written (2 ** -1 raises for an integer, True + True is True,
+    4_000_000_000 ** 2 wraps around, np.float16(60000) * 2 is inf, 1 / np.float64(0)
+    is inf where 1 / 0.0 raises)."""
     if isinstance(value, (int, float)):
         return float(value)
     arr = np.asarray(value)
-    if arr.dtype.kind in "biu":
-        arr = arr.astype(np.float64)
+    if arr.dtype.kind in "biuf":
+        if arr.dtype != np.float64:
+            arr = arr.astype(np.float64)
+        if arr.ndim == 0:
+            return float(arr)
     return arr
 
 
